@@ -12,7 +12,7 @@ def run(replay=None):
     import_hpl()
     rep = Report('C03')
     thorough = tier() == 'thorough'
-    asts, stats = accepted(thorough, limit=40000 if thorough else 6000, salt='c03')
+    asts, stats = accepted(thorough, limit=15000 if thorough else 6000, salt='c03')
     rep.add_tlc(stats)
     fams, st2 = accepted_families(['quants', 'slots', 'funs', 'incl', 'bool1w', 'alias', 'cmp11', 'clash'], cap=None if thorough else 400, salt='c03f')
     rep.add_tlc(st2)
